@@ -9,7 +9,7 @@ Sources of truth (nothing is copied from a previous run):
 The file is only rewritten when its content changes, so an unchanged tree costs no
 Lean rebuild; any change makes `lake build` re-check every table-dependent theorem.
 """
-import json, os, subprocess, sys, re
+import json, os, subprocess, sys, re, base64
 sys.path.insert(0, os.path.dirname(os.path.abspath(__file__)))
 import build_repo
 
@@ -192,6 +192,75 @@ def grid_ops(tabs):
     return g
 
 
+def pure_cli_lines():
+    """command lines of the subcommands that need no primitive (b64 enc/dec, jwk pub/eql/use, jws fmt, jwe fmt) in many
+    spellings, deterministic: used by the C18 correspondence (the kernel is too slow on the command-line model for a
+    grid theorem: text decoding, option and compact parsing over byte lists take minutes per 50 rows)"""
+    hx_ = lambda b: (b if isinstance(b, bytes) else b.encode()).hex()
+    js_ = lambda o: json.dumps(o, separators=(",", ":"))
+    pool = json.load(open(os.path.join(VERIF, "corpus", "keys", "pool.json")))
+    rows = []
+    def cli(argv, files=None, stdin=None):
+        a = {"argv": argv, "files": files or {}}
+        if stdin is not None:
+            a["stdin"] = stdin
+        rows.append(("cli.run", a))
+    for data in (b"", b"a", b"ab", b"abc", bytes(range(0, 256, 37)), b"\xff\xfe.\n"):
+        cli(["b64", "enc", "-I", "d.bin"], {"d.bin": hx_(data)})
+        cli(["b64", "enc", "-I", "-"], {}, hx_(data))
+        cli(["b64", "enc", "-I", "d.bin", "-o", "o.txt"], {"d.bin": hx_(data)})
+        txt = base64.urlsafe_b64encode(data).rstrip(b"=").decode()
+        for tt in (txt, txt + "\n", " " + txt[:3] + " \n" + txt[3:], txt + "=", txt + "*", txt[:-1] if txt else "A"):
+            cli(["b64", "dec", "-i", "t.txt"], {"t.txt": hx_(tt)})
+            cli(["b64", "dec", "-i", "-", "-O", "o.bin"], {}, hx_(tt))
+    good = [pool["oct-16"], pool["EC-P256"], pool["EC-P521"], {"kty": "RSA", "n": "AQAB", "e": "AQAB", "d": "AA", "p": "AA", "q": "AA", "dp": "AA", "dq": "AA", "qi": "AA"}]
+    broken = [{"kty": "EC", "crv": "P-256", "x": "AAAA"}, {"kty": "nope", "k": "AA"}, {"k": "AAAA"}, {"kty": "oct"}, 5]
+    for ks in [[k] for k in good + broken] + [good[:2], [{"keys": good[:3]}], [good[0], {"kty": "oct", "k": 5}]]:
+        for set_ in (False, True):
+            fs = {"k%d.jwk" % i: hx_(js_(k)) for i, k in enumerate(ks)}
+            cli(["jwk", "pub"] + sum((["-i", "k%d.jwk" % i] for i in range(len(ks))), []) + (["-s"] if set_ else []), fs)
+    cli(["jwk", "pub", "-i", js_(good[1]), "-o", "pub.jwk"])
+    import itertools as _it
+    for a_, b_ in _it.product(good[:3] + broken[:2], repeat=2):
+        cli(["jwk", "eql", "-i", "a.jwk", "-i", "b.jwk"], {"a.jwk": hx_(js_(a_)), "b.jwk": hx_(js_(b_))})
+    cli(["jwk", "eql", "-i", "a.jwk"], {"a.jwk": hx_(js_(good[0]))})
+    for k in [good[0], dict(good[0], use="sig"), dict(good[1], key_ops=["verify"]), dict(good[0], use="enc", key_ops=["sign"])]:
+        for uses in (["sign"], ["sign", "verify"], ["encrypt"], ["nope"]):
+            for flags in ([], ["-a"], ["-r"], ["-a", "-r"], ["-s"]):
+                for outf in (None, "u.jwk"):
+                    cli(["jwk", "use", "-i", "k.jwk"] + sum((["-u", u] for u in uses), []) + flags + (["-o", outf] if outf else []), {"k.jwk": hx_(js_(k))})
+    jtoks = [{"payload": "cGF5", "protected": "cA", "signature": "c2ln"}, {"payload": "cGF5", "signatures": [{"protected": "cA", "signature": "c2ln"}]},
+             {"payload": "cGF5", "signatures": [{"protected": "cA", "signature": "c2ln"}, {"protected": "cQ", "signature": "c2lo"}]},
+             {"payload": "cGF5", "protected": "cA", "header": {"kid": "k"}, "signature": "c2ln"}, {"payload": "cGF5", "signature": "c2ln"},
+             {"payload": 5, "signature": "c2ln"}, {"payload": "cGF5", "protected": 5, "signature": "c2ln"}, {"payload": "cGF5"}, {"signature": "c2ln", "protected": "cA"}]
+    etoks = [{"ciphertext": "Y3Q", "iv": "aXY", "protected": "cA", "tag": "dGFn", "encrypted_key": "ZWs"}, {"ciphertext": "Y3Q", "iv": "aXY", "protected": "cA", "tag": "dGFn", "recipients": [{"encrypted_key": "ZWs"}]},
+             {"ciphertext": "Y3Q", "iv": "aXY", "protected": "cA", "tag": "dGFn", "recipients": [{"encrypted_key": "ZWs", "header": {"alg": "x"}}]},
+             {"ciphertext": "Y3Q", "iv": "aXY", "protected": "cA", "tag": "dGFn", "recipients": [{"encrypted_key": "ZWs"}, {"encrypted_key": "ZWt"}]},
+             {"ciphertext": "Y3Q", "iv": "aXY", "protected": "cA", "tag": "dGFn", "recipients": []}, {"ciphertext": "Y3Q", "iv": "aXY", "protected": "cA", "tag": "dGFn", "recipients": 5},
+             {"ciphertext": "Y3Q", "tag": "dGFn"}, {"ciphertext": "Y3Q"}, {"ciphertext": "Y", "tag": "dGFn"}, {"ciphertext": 5, "tag": "dGFn"}, {"tag": "dGFn", "iv": "aXY"},
+             {"ciphertext": "Y3Q", "tag": "dGFn", "iv": 5}, {"ciphertext": "Y3Q", "recipients": [{"tag": "dGFn"}]}]
+    for sub, toks, comp, member, raw in (("jws", jtoks, lambda t_: "%s.%s.%s" % (t_.get("protected", ""), t_.get("payload", ""), t_.get("signature", "")), "payload", b"pay"),
+                                         ("jwe", etoks, lambda t_: ".".join(str(t_.get(m_, "")) for m_ in ("protected", "encrypted_key", "iv", "ciphertext", "tag")), "ciphertext", b"ct")):
+        for t_ in toks:
+            for extra in ([], ["-c"], ["-o", "out.txt"], ["-c", "-O", "body.bin"], ["-O", "body.bin"]):
+                cli([sub, "fmt", "-i", js_(t_)] + extra)
+            cli([sub, "fmt", "-i", "tok.json", "-c"], {"tok.json": hx_(" \n" + js_(t_))})
+            cli([sub, "fmt", "-i", "-"], {}, hx_(js_(t_)))
+            det = {k_: v_ for k_, v_ in t_.items() if k_ != member}
+            cli([sub, "fmt", "-i", js_(det), "-I", "body.bin"], {"body.bin": hx_(raw)})
+            cli([sub, "fmt", "-i", js_(det), "-I", "body.bin", "-c"], {"body.bin": hx_(raw)})
+        t0 = toks[0]
+        for extra in ([], ["-c"], ["-O", "body.bin"]):
+            cli([sub, "fmt", "-i", comp(t0)] + extra)
+            cli([sub, "fmt", "-i", "tok.txt"] + extra, {"tok.txt": hx_(comp(t0))})
+            cli([sub, "fmt", "-i", "-"] + extra, {}, hx_(comp(t0)))
+        detc = comp({k_: v_ for k_, v_ in t0.items() if k_ != member})
+        cli([sub, "fmt", "-i", "tok.txt", "-I", "body.bin", "-c"], {"tok.txt": hx_(detc), "body.bin": hx_(raw)})
+        cli([sub, "fmt", "-i", "-", "-I", "body.bin"], {"body.bin": hx_(raw)}, hx_(detc))
+        cli([sub, "fmt"]); cli([sub, "fmt", "-i", "nofile"]); cli([sub, "fmt", "-i", "5"]); cli([sub, "fmt", "-i", js_(t0), "-I", "missing.bin"])
+    return rows
+
+
 def generate_grid(info, t):
     """{path: text} — one generated module per property: Jose/Grid/<pid>.lean"""
     g = grid_ops(t)
@@ -217,6 +286,9 @@ def generate_grid(info, t):
                 st = rj.get("status")
                 if "crash" in rj or (st and 0 < st <= len(letters) and letters[st - 1] in ("-o", "-f")):
                     continue        # a failing output option has already written part of a circular value
+            if pid == "C18" and rj.get("status") != 0:
+                # a failing run has usually written part of its output before it knew: only the status is compared
+                o, rj = "cli.status", {"status": rj.get("status")}
             keep.append(((o, a), rj))
         rows = ["  R %s %s %s" % (lean_str(o), ljs(a), ljs(rj)) for (o, a), rj in keep]
         CH = 50
